@@ -18,6 +18,7 @@ def windows(n, tier):
     for k in range(n):
         out.append((('i', k), k, k + 1))
         out.append((('i', k - n), k, k + 1))
+        out.append((('I', k), k, k + 1))      # a numpy integer (e.g. from unravel_index / argmax)
     seen = set()
     for a in range(n):
         for b in range(a + 1, n + 1):
@@ -94,10 +95,18 @@ class Prop(core.Prop):
         for combo in itertools.product(*axes):
             yield {'ioapi': rec, 'win': [[d, list(w[0]), w[1], w[2]]
                                          for d, w in zip(group['dims'], combo)]}
+            if 'TSTEP' in group['dims'] and len(group['dims']) <= 2 and all(w[0][0] != 'I' for w in combo):
+                # the same window on a file to which a variable was added by hand beforehand
+                yield {'ioapi': rec, 'added': True, 'win': [[d, list(w[0]), w[1], w[2]]
+                                                            for d, w in zip(group['dims'], combo)]}
 
     def run_one(self, case):
         rec = case['ioapi']
         f = ioapi_u.build(rec)
+        if case.get('added') and rec['kind'] == 'grid':
+            v = f.createVariable('ADDED', 'f', ('TSTEP', 'LAY', 'ROW', 'COL'))
+            v.units, v.long_name, v.var_desc = 'ppmV'.ljust(16), 'ADDED'.ljust(16), 'ADDED'.ljust(80)
+            v[...] = 2.5
         sdate, stime = ioapi_u.STARTS[rec['start']]
         exp_times = rtime.ioapi_times(sdate, stime, rec['tstep'], rec['nt'])
         src = {k: getattr(f, k) for k in ('XORIG', 'YORIG', 'XCELL', 'YCELL', 'TSTEP')}
@@ -109,11 +118,11 @@ class Prop(core.Prop):
         win = {}
         for d, s, a, b in case['win']:
             kw[d] = rops.sel_to_py(tuple(s))
-            cls.append('%s:%s' % (d, 'int' if s[0] == 'i' else 'slice'))
+            cls.append('%s:%s' % (d, {'i': 'int', 'I': 'npint'}.get(s[0], 'slice')))
             win[d] = (a, b)
         sig = ('sliceDimensions', '+'.join(sorted(c.split(':')[0] for c in cls)))
         scope = {'dims': '+'.join(sorted(win)), 'selkinds': '+'.join(sorted(cls)),
-                 'tstep': rec['tstep']}
+                 'tstep': rec['tstep'], 'added': bool(case.get('added'))}
         try:
             g = f.sliceDimensions(**kw)
         except Exception as e:
@@ -155,5 +164,5 @@ class Prop(core.Prop):
                                     'COL': rec['nc']}[d] for d, (a_, b_) in win.items())
         st = [h64(rec), h64(rec, sorted(win.items()))]
         return result('viol' if vs else 'ok', vs, st, 1,
-                      h64(rec, case['win']) if nontriv else None,
+                      h64(rec, case['win'], case.get('added')) if nontriv else None,
                       h64(float(g.XORIG), float(g.YORIG), gvg.tobytes(), repr(got)) if not vs else None)
